@@ -100,7 +100,10 @@ SRC_SPECS = [
 RULE = ('kinds iso/npoint/rodgers/tarray/tfile/guillot by quota; layers 2-150 (not multiples of ten favoured); real '
         'SimplePressureProfile or irregular descending ArrayPressureProfile grids; NPoint: 0-6 interior nodes, '
         'unset/negative/explicit end pressures inside and beyond the grid, nodes on grid values, tied and equal '
-        'temperatures, windows 0-100 (int and float), finite slope limits, inverted/equal nodes interleaved; Rodgers: '
+        'temperatures, windows 0-100 (int and float), finite slope limits, inverted/equal nodes interleaved; quota: interior '
+        'nodes held as numpy arrays (35%); quota: window = 100 percent over equal / within-1% control temperatures; Guillot quota: '
+        'both optical/infrared opacity ratios 1e-10..1e-6 (different or equal) at strong infrared opacity, closed form judged '
+        'layer by layer with the cancellation bound 64 eps/gamma on T^4; Rodgers: '
         'default covariance, symmetric and non-symmetric user covariance; arrays of 1..2n values with/without '
         'pressure points in any order; Guillot inside and outside the documented bounds incl. zero opacities and '
         'negative temperatures; 30% of the iso/npoint/rodgers/guillot cases are re-evaluated on the SAME object after 1-3 '
